@@ -10,6 +10,7 @@ import (
 	"io"
 	"net/http"
 	"strings"
+	"testing/iotest"
 	"time"
 	"unicode/utf8"
 
@@ -101,7 +102,15 @@ type wire struct {
 	Default  string   // receiver's default name
 	Local    []string // nil = no isLocalServerName callback
 	KeyState string
+	// Framing is how the body reaches the receiver: 0 = reader of known length (Content-Length), 1 = unknown length
+	// (Transfer-Encoding: chunked: net/http reports ContentLength -1), 2 = known length delivered one byte per Read,
+	// 3 = unknown length delivered one byte per Read
+	Framing int `json:",omitempty"`
 }
+
+type onlyReader struct{ r io.Reader } // hides Len() and the concrete type, so that net/http cannot work out a length
+
+func (o onlyReader) Read(p []byte) (int, error) { return o.r.Read(p) }
 
 type param struct{ name, value string }
 
@@ -229,6 +238,14 @@ func deliver(w wire) (*fclient.FederationRequest, int, error) {
 	if len(w.Body) == 0 {
 		req.Body = io.NopCloser(bytes.NewReader(nil))
 	}
+	switch w.Framing {
+	case 1:
+		req.Body, req.ContentLength, req.TransferEncoding = io.NopCloser(onlyReader{bytes.NewReader(w.Body)}), -1, []string{"chunked"}
+	case 2:
+		req.Body = io.NopCloser(iotest.OneByteReader(bytes.NewReader(w.Body)))
+	case 3:
+		req.Body, req.ContentLength, req.TransferEncoding = io.NopCloser(iotest.OneByteReader(bytes.NewReader(w.Body))), -1, []string{"chunked"}
+	}
 	if w.CType != nil {
 		req.Header.Set("Content-Type", *w.CType)
 	}
@@ -348,7 +365,7 @@ func main() { harness.Main("C13", "model_checking", run) }
 
 func run(r *harness.Run) {
 	verifhook.Clock = func() time.Time { return vnow }
-	r.Rule("requests built with the real client API over {5 methods} x {5 URIs} x {4 bodies incl. a signed non-UTF-8 body} x {4 origins + 10 invalid origin names, correctly signed} x {4 destinations} x {2 key IDs} x receiver configurations (single name / several local names); for each: the untampered delivery, every single-field tampering (method, path, query, each body byte class, content type, origin, destination, key ID, one signature character, header dropped, scheme changed, key validity states at 'now'), every header-syntax variant (all 24 parameter orders x separators x spacing x quoting: neutral; empty / missing parameters, repeated headers with same / different origins, unknown scheme first), and pairs of tamperings (deviation-bounded DFS, bound 2); real VerifyHTTPRequest + KeyRing over a scripted key database, virtual clock. Oracle: reference header grammar + reference signing object + exact reference ed25519 signature.")
+	r.Rule("requests built with the real client API over {5 methods} x {5 URIs} x {4 bodies incl. a signed non-UTF-8 body} x {4 origins + 10 invalid origin names, correctly signed} x {4 destinations} x {2 key IDs} x receiver configurations (single name / several local names); for each: the untampered delivery, every single-field tampering (method, path, query, each body byte class, content type, origin, destination, key ID, one signature character, header dropped, scheme changed, key validity states at 'now'), every header-syntax variant (all 24 parameter orders x separators x spacing x quoting: neutral; empty / missing parameters, repeated headers with same / different origins, unknown scheme first), and pairs of tamperings (deviation-bounded DFS, bound 2); real VerifyHTTPRequest + KeyRing over a scripted key database, virtual clock. Oracle: reference header grammar + reference signing object + exact reference ed25519 signature. Untampered and singly tampered requests are additionally delivered under 3 other body framings (chunked / unknown length, one byte per read, both).")
 	r.Assume("ed25519 deterministic and trusted", "requests whose URI net/http refuses to build are not transmissible and are skipped")
 	r.OnReplay("wire", func(raw json.RawMessage) error {
 		var w wire
@@ -571,6 +588,14 @@ func run(r *harness.Run) {
 			}
 			err := checkWire(r, w, label)
 			viol("wire:"+label, w, err)
+			if len(applied) <= 1 && err == nil {
+				// the verdict is about what was sent, not about how the transport framed it
+				for f := 1; f <= 3; f++ {
+					wf := clone(w)
+					wf.Framing = f
+					viol(fmt.Sprintf("wire-framing%d:%s", f, label), wf, checkWire(r, wf, fmt.Sprintf("%s, body framing %d", label, f)))
+				}
+			}
 			if len(applied) <= 1 {
 				r.Nontrivial(fmt.Sprintf("%d|%s", bi, label))
 			}
